@@ -503,6 +503,20 @@ def configure (proj : ProjectT) (tool : ToolT) (spdx : String → Option License
     customUrls := urlAcc.custom, readmeContent := rcontent, readmeContentType := rct, readmes := readmes,
     extras := extras, requiresDist := requiresDist }
 
+/-! ## `packaging.utils.canonicalize_name` (names of extras, PEP 685) -/
+
+def isNameSep (c : Char) : Bool := c = '-' || c = '_' || c = '.'
+
+/-- `re.sub(r"[-_.]+", "-", name)`: every run of separators becomes one `-` (`prev` = the previous character was a separator) -/
+def collapseSeps : Bool → List Char → List Char
+  | _, [] => []
+  | prev, c :: cs =>
+    if isNameSep c then (if prev then collapseSeps true cs else '-' :: collapseSeps true cs)
+    else c :: collapseSeps false cs
+
+/-- `canonicalize_name(name)` = `re.sub(r"[-_.]+", "-", name).lower()` (ASCII lower-casing, as everywhere in the models) -/
+def canonicalizeName (s : String) : String := String.ofList ((collapseSeps false s.toList).map lowerChar)
+
 /-! ## `Factory._validate_single_line_fields` (the validation that keeps single-line headers on one line) -/
 
 /-- `"\n" in value or "\r" in value` (characters from source) -/
